@@ -1720,8 +1720,14 @@ func (env *LEnv) call(ctx context.Context, fun *LVal, args *LVal) *LVal {
 		if val.Type == LMarkTerminal {
 			env.Runtime.Stack.Top().Terminal = true
 			termEnv := val.Native.(*LEnv)
+			// Restore afterwards, as for the builtin above: termEnv is
+			// commonly the root environment, and a ctx left on it would be
+			// used by every later non-Context entry point.
+			prevTerm := termEnv.evalCtx
 			termEnv.evalCtx = ctx
-			return termEnv.eval(ctx, val.Cells[0])
+			ret := termEnv.eval(ctx, val.Cells[0])
+			termEnv.evalCtx = prevTerm
+			return ret
 		}
 		return val
 	}
